@@ -632,29 +632,37 @@ impl ToplevelDefinition {
     }
 
     pub(crate) fn apply_tagging_environment(&mut self, environment: &TaggingEnvironment) {
-        if let (env, ToplevelDefinition::Type(ty)) = (environment, self) {
-            ty.tag = ty.tag.as_ref().map(|t| AsnTag {
-                environment: env + &t.environment,
-                tag_class: t.tag_class,
-                id: t.id,
-            });
-            match &mut ty.ty {
-                ASN1Type::Sequence(s) | ASN1Type::Set(s) => s.members.iter_mut().for_each(|m| {
-                    m.tag = m.tag.as_ref().map(|t| AsnTag {
-                        environment: env + &t.environment,
-                        tag_class: t.tag_class,
-                        id: t.id,
-                    });
-                }),
-                ASN1Type::Choice(c) => c.options.iter_mut().for_each(|o| {
-                    o.tag = o.tag.as_ref().map(|t| AsnTag {
-                        environment: env + &t.environment,
-                        tag_class: t.tag_class,
-                        id: t.id,
-                    });
-                }),
-                _ => (),
+        if let ToplevelDefinition::Type(ty) = self {
+            Self::apply_tagging_environment_to_tag(&mut ty.tag, environment);
+            Self::apply_tagging_environment_to_type(&mut ty.ty, environment);
+        }
+    }
+
+    fn apply_tagging_environment_to_tag(tag: &mut Option<AsnTag>, env: &TaggingEnvironment) {
+        *tag = tag.as_ref().map(|t| AsnTag {
+            environment: env + &t.environment,
+            tag_class: t.tag_class,
+            id: t.id,
+        });
+    }
+
+    /// The module's tagging default applies to the tags of anonymous types
+    /// at any nesting depth, not only to those of the outermost type.
+    fn apply_tagging_environment_to_type(ty: &mut ASN1Type, env: &TaggingEnvironment) {
+        match ty {
+            ASN1Type::Sequence(s) | ASN1Type::Set(s) => s.members.iter_mut().for_each(|m| {
+                Self::apply_tagging_environment_to_tag(&mut m.tag, env);
+                Self::apply_tagging_environment_to_type(&mut m.ty, env);
+            }),
+            ASN1Type::Choice(c) => c.options.iter_mut().for_each(|o| {
+                Self::apply_tagging_environment_to_tag(&mut o.tag, env);
+                Self::apply_tagging_environment_to_type(&mut o.ty, env);
+            }),
+            ASN1Type::SequenceOf(s) | ASN1Type::SetOf(s) => {
+                Self::apply_tagging_environment_to_tag(&mut s.element_tag, env);
+                Self::apply_tagging_environment_to_type(&mut s.element_type, env);
             }
+            _ => (),
         }
     }
 
